@@ -59,7 +59,7 @@ let observe (opname : string) =
                (b2s (l_open l)))
         end) (s_conns s);
       if not (s_cleaned s) then begin
-        let it = List.filter (fun k -> is_open s k) (s_order s) in
+        let it = iter_clients s in       (* the function the iterator theorems are about *)
         Buffer.add_string b (Printf.sprintf " | it=[%s]" (String.concat "," (List.map (fun k -> string_of_int (int_of_nat k)) it)))
       end
     end;
